@@ -115,11 +115,15 @@ Inductive resp :=
 Definition mk (u who : Z) (t : otype) : obj := {| uid := u; owner := who; oty := t |}.
 
 (* session.add + commit: AUTOINCREMENT hands out next_uid, next_uid+1, ... and never goes back *)
-Definition add_objs (who : Z) (ts : list otype) (st : store) : list Z * store :=
-  let n := next_uid st in
-  let ids := map (fun k => n + Z.of_nat k) (seq 0 (length ts)) in
-  (ids, {| objs := objs st ++ map (fun p => mk (fst p) who (snd p)) (combine ids ts);
-           next_uid := n + Z.of_nat (length ts) |}).
+Definition add_one (who : Z) (t : otype) (st : store) : Z * store :=
+  let n := next_uid st in (n, {| objs := objs st ++ [mk n who t]; next_uid := n + 1 |}).
+
+Fixpoint add_objs (who : Z) (ts : list otype) (st : store) : list Z * store :=
+  match ts with
+  | [] => ([], st)
+  | t :: ts' => let '(n, st1) := add_one who t st in
+                let '(ids, st2) := add_objs who ts' st1 in (n :: ids, st2)
+  end.
 
 Definition remove_obj (u : Z) (st : store) : store :=
   {| objs := filter (fun o => negb (uid o =? u)) (objs st); next_uid := next_uid st |}.
